@@ -12,7 +12,7 @@ for sd in seeds:
     pid = sd.split("_")[0]
     meta = json.load(open(f"{d}/meta.json"))
     patch = f"{d}/patch.diff"
-    for alt in ("patch_rebased.diff", "patch_rebased2.diff"):  # rebased onto later repairs of /repo (the latest wins)
+    for alt in ("patch_rebased.diff", "patch_rebased2.diff", "patch_rebased3.diff"):  # rebased onto later repairs of /repo (the latest wins)
         if os.path.exists(f"{d}/{alt}"):
             patch = f"{d}/{alt}"
     ap = subprocess.run(f"git -C /repo apply {patch}", shell=True, capture_output=True, text=True)
